@@ -9,6 +9,7 @@ func verifC19Close()               {}
 func verifC19ChildNew(any, int)    {}
 func verifC19ChildClose(any, int)  {}
 func verifC19ChildRecv(any, error) {}
+func verifC19ChildEnd(any, int)    {}
 func verifC19StreamNew(any, int)   {}
 func verifC19StreamCloseRecv(any)  {}
 func verifC19StreamCloseSend(any)  {}
